@@ -154,6 +154,17 @@ pub fn parse_eof(src: &'static str) -> Report {
     .with_source_code(src)
 }
 
+pub fn parse_too_many_statements(span: Span, src: &'static str) -> Report {
+    miette!(
+        severity = Severity::Error,
+        code = "parse::too_many_statements",
+        help = "a program can contain at most 65,535 words, check large .blkw and .stringz directives",
+        labels = vec![LabeledSpan::at(span, "does not fit in the program")],
+        "Program is larger than the address space"
+    )
+    .with_source_code(src)
+}
+
 pub fn parse_lit_range(span: Span, src: &'static str, bits: Bits) -> Report {
     miette!(
         severity = Severity::Error,
